@@ -11,6 +11,7 @@ CONSTANTS
   MaxCells = 3
   MaxMerges = 1
   MaxSheets = 2
+  KindSeq <- KindsAll
   Rots = {0}
   Layouts <- LayStd
 INVARIANTS TypeOK PlacedByRef FunctionLike MergeBlank
